@@ -30,6 +30,15 @@ CHECKS = {
             "that was sent. Search, not proof: larger streams are sampled.",
             "Trusts the recording layers of the harness and Python's struct module as the length reference.",
             "5/C05"),
+    "C13": ("fault_enumeration",
+            "model-based generated operation scripts over the real SQLite store (dict model in lock-step) + crash-point "
+            "enumeration of every mutating operation with a previous-or-new oracle",
+            "Generated histories of store/replace/delete/reopen with real identity, session, prekey and sender-key records are "
+            "compared with a dict model after every step and after reopen; each mutating operation is executed under the "
+            "crash-point recorder and every distinct on-disk state is reopened with the real store class and compared.",
+            "Process-death crash model; SQLite's atomic commit/journal recovery trusted; device id 1 and numeric recipient ids "
+            "as used by all callers.",
+            "5/C13"),
     "C15": ("exploration",
             "enumerated lengths/tamper positions + Hypothesis-generated inputs; round trip, tamper rejection and two-way "
             "differential against an independent HKDF/AES-CBC/HMAC implementation",
